@@ -217,10 +217,12 @@ pub fn apply_fault(ctx: &Ctx, img: &mut Vec<u8>, older: Option<&[u8]>, hot: &[(u
             let p = position(ctx, len, hot);
             if let Some(q) = (p..len.min(p + 64)).find(|&i| img[i].is_ascii_digit()) {
                 let e = (q..len).find(|&i| !img[i].is_ascii_digit()).unwrap_or(len);
-                let base: u64 = match ctx.draw(F, 5, "extreme-base") {
+                let base: u64 = match ctx.draw(F, 6, "extreme-base") {
                     0 | 1 => len as u64,
                     2 => (len - q) as u64,
                     3 => q as u64,
+                    // extremes of the integer types a reader may compute with
+                    4 => [1u64 << 15, 1 << 16, 1 << 31, 1 << 32, i64::MAX as u64, u64::MAX, 1 << 62, 1 << 53][ctx.draw(F, 8, "extreme-abs") as usize],
                     _ => {
                         let r = ctx.draw(F, len as u64, "extreme-from") as usize;
                         match (r..len).find(|&i| img[i].is_ascii_digit()) {
@@ -235,7 +237,7 @@ pub fn apply_fault(ctx: &Ctx, img: &mut Vec<u8>, older: Option<&[u8]>, hot: &[(u
                 let v = match ctx.draw(F, 5, "extreme-delta") {
                     0 => base,
                     1 => base.saturating_sub(1),
-                    2 => base + 1,
+                    2 => base.saturating_add(1),
                     3 => base.saturating_sub(ctx.draw(F, 64, "extreme-minus")),
                     _ => base / 2,
                 };
